@@ -100,6 +100,9 @@ type retPoint struct {
 	block   *ssa.BasicBlock
 }
 
+// strictLoopOrdinals: refuse contracts that name a loop the function does not have (set while contracts are authored)
+var strictLoopOrdinals = true
+
 type loopInfo struct {
 	header           *ssa.BasicBlock
 	blocks           map[*ssa.BasicBlock]bool
@@ -816,11 +819,19 @@ func (fc *FnCtx) findLoops() {
 	for i, l := range fc.loops {
 		l.ordinal = i + 1
 	}
-	// an invariant written for a loop that does not exist would be silently unchecked: refuse it
+	// an invariant written for a loop that does not exist would be silently unchecked. While contracts are written
+	// (`govc vc`, `-update-lock`) that is refused; in a check it is reported and the function is still verified against
+	// its postconditions (a change that removes a loop and breaks a postcondition must come out as a violation; if the
+	// postconditions survive, the lock reports the vanished invariant obligations as undecided).
 	if fc.con != nil {
 		for n := range fc.con.LoopInv {
 			if n < 1 || n > len(fc.loops) {
-				fc.err = fmt.Errorf("%s: contract has an invariant for loop %d, the function has %d loop(s)", fc.name, n, len(fc.loops))
+				msg := fmt.Sprintf("%s: contract has an invariant for loop %d, the function has %d loop(s)", fc.name, n, len(fc.loops))
+				if strictLoopOrdinals {
+					fc.err = fmt.Errorf("%s", msg)
+				} else {
+					fmt.Fprintln(os.Stderr, "CONTRACT-WARNING "+msg)
+				}
 			}
 		}
 	}
